@@ -25,6 +25,11 @@ class SplitV(Value):
         self.s, self.sep = s, sep
 
 
+def _mentions_term(term, var):
+    from .interp import _mentions
+    return _mentions(term, var)
+
+
 def is_inline_callbacks(fnode):
     return any(ast.unparse(d).endswith("inlineCallbacks") for d in getattr(fnode, "decorator_list", []))
 
@@ -500,7 +505,7 @@ class Calls(Interp):
                 c = None
         if c is not None and key in self.reg.inline_fresh and args and self.is_fresh(args[0]):
             c = None       # receiver built on this path: execute the real body on it
-        if c is not None and key in self.reg.inline_closure_args and any(isinstance(a, (FuncV, BoundV, PartialV)) for a in list(args) + list(kwargs.values())):
+        if c is not None and key in self.reg.inline_closure_args and any(isinstance(a, (FuncV, BoundV, PartialV, BuiltinV, ClassV)) for a in list(args) + list(kwargs.values())):
             c = None       # a local closure is passed: execute the real body (the contract speaks about abstract callbacks)
         if c is not None and not c.inline:
             recv = None
@@ -1086,6 +1091,8 @@ class Calls(Interp):
         return self.bi_set(args, kwargs, node, "frozenset")
 
     def setmap_from_iterable(self, v, node):
+        if isinstance(v, ItemsV) and v.what == "keys":
+            v = v.dictval                      # set(d.keys()) == set(d)
         k = self.kind_of(v)
         if k in ("set", "frozenset", "anyset", "PSet", "TupV"):
             return self.as_setmap(v, node)
@@ -1093,6 +1100,14 @@ class Calls(Interp):
             return seq_to_set(self.as_seq(v, node))
         if k == "opt":
             return self.as_setmap(v, node)
+        if k in ("dict", "PMap"):
+            # set(d): the keys of d
+            m = self.as_map(v, node)
+            x = z3.Const("sk!%d" % so._fresh[0], Val)
+            so._fresh[0] += 1
+            out = so.fresh("keyset", SetMap)
+            self.assume(z3.ForAll([x], out[x] == (m[x] != Val.absent), patterns=[out[x]]))
+            return out
         self.unsupported(node, "set() of %r" % (v,))
 
     def bi_list(self, args, kwargs, node):
@@ -1622,34 +1637,91 @@ class Calls(Interp):
         return super().as_seq(v, node)
 
     def ev_DictComp(self, node):
-        """{k: e for k, v in d.items() if c}: pointwise definition of a new dict over the keys of d (pure e and c; the key
-        expression must be the key variable itself, so distinct source keys stay distinct)"""
+        """{k: e for k, v in d.items() if c} / {k: e for k in d if c} / {k: e for k in <set> if c}: pointwise definition of a new
+        dict over the keys of d (resp. the members of the set).  The key expression must be the key variable itself, so distinct
+        source keys stay distinct; e and c are evaluated once for a symbolic key.  If e allocates objects (e.g. builds one Mismatch
+        per key) the values are over-approximated: new objects of the statically known class, fields unknown."""
         if len(node.generators) != 1:
             self.unsupported(node, "nested dict comprehension")
         g = node.generators[0]
         it = self.ev(g.iter)
-        if not (isinstance(it, ItemsV) and it.what == "items" and isinstance(g.target, ast.Tuple) and len(g.target.elts) == 2
-                and all(isinstance(t, ast.Name) for t in g.target.elts) and isinstance(node.key, ast.Name)
-                and node.key.id == g.target.elts[0].id):
-            self.unsupported(node, "dict comprehension (only {k: e for k, v in d.items() if c})")
-        m = self.as_map(it.dictval, node)
+        if isinstance(it, TupV) and all(isinstance(p_, TupV) and len(p_.items) == 2 for p_ in it.items) and not g.ifs \
+                and isinstance(g.target, ast.Tuple) and len(g.target.elts) == 2 and all(isinstance(t, ast.Name) for t in g.target.elts):
+            # the items of a constant table (class-level dict of factories): built entry by entry, as real code
+            m = so.EMPTY_KW
+            for p_ in it.items:
+                self.spec_envs.append({g.target.elts[0].id: p_.items[0], g.target.elts[1].id: p_.items[1]})
+                try:
+                    kv = self.to_term(self.ev(node.key), node)
+                    vv = self.to_term(self.ev(node.value), node)
+                finally:
+                    self.spec_envs.pop()
+                m = z3.Store(m, kv, vv)
+            return PMap(m) if self.spec_mode else self.new_dict(m)
         x = z3.Const("dk!%d_%d" % (node.lineno, so._fresh[0]), Val)
         so._fresh[0] += 1
-        arg = parse_tag(it.dictval.ty)[1] if isinstance(it.dictval, SV) else None
-        kt = vt = None
-        if arg and "=>" in arg:
-            kt, vt = [t.strip() for t in arg.split("=>", 1)]
-        self.spec_envs.append({g.target.elts[0].id: SV(x, kt), g.target.elts[1].id: SV(m[x], vt)})
+        env = None
+        if isinstance(it, ItemsV) and it.what == "items" and isinstance(g.target, ast.Tuple) and len(g.target.elts) == 2 \
+                and all(isinstance(t, ast.Name) for t in g.target.elts) and isinstance(node.key, ast.Name) and node.key.id == g.target.elts[0].id:
+            m = self.as_map(it.dictval, node)
+            arg = parse_tag(it.dictval.ty)[1] if isinstance(it.dictval, SV) else None
+            kt = vt = None
+            if arg and "=>" in arg:
+                kt, vt = [t.strip() for t in arg.split("=>", 1)]
+            present = m[x] != Val.absent
+            env = {g.target.elts[0].id: SV(x, kt), g.target.elts[1].id: SV(m[x], vt)}
+        elif isinstance(g.target, ast.Name) and isinstance(node.key, ast.Name) and node.key.id == g.target.id:
+            k = self.kind_of(it)
+            if k in ("dict", "PMap"):
+                present = self.as_map(it, node)[x] != Val.absent
+            elif k in ("set", "frozenset", "anyset", "PSet"):
+                present = self.as_setmap(it, node)[x]
+            else:
+                self.unsupported(node, "dict comprehension over %r" % (it,))
+            env = {g.target.id: SV(x, None)}
+        if env is None:
+            self.unsupported(node, "dict comprehension (only over d.items(), the keys of a dict, or a set, with the key variable as key)")
+        self.spec_envs.append(env)
         saved = self.spec_mode
         self.spec_mode += 1
+        npc, heap0 = len(self.st.pc), dict(self.st.heap)
         try:
             conds = [self.truthy(self.ev(c), node) for c in g.ifs]
-            val = self.to_term(self.ev(node.value), node)
+            self.spec_mode = saved        # the value expression may construct objects: evaluate as code (branching is still refused)
+            self._no_branch = getattr(self, "_no_branch", 0) + 1
+            side_saved, self._comp_side = getattr(self, "_comp_side", []), []
+            try:
+                vv = self.ev(node.value)
+            finally:
+                self._no_branch -= 1
+                side, self._comp_side = self._comp_side, side_saved
+            val = self.to_term(vv, node)
+            for sc in side:
+                # e.g. d[k] in the value expression: k must be a key of d for EVERY element (else KeyError)
+                self.oblige("pre", z3.ForAll([x], z3.Implies(z3.And([present] + conds), sc)), node, "comprehension-key-present")
         finally:
             self.spec_mode = saved
             self.spec_envs.pop()
         out = so.fresh("dcomp", KwMap)
-        self.assume(z3.ForAll([x], out[x] == z3.If(z3.And([m[x] != Val.absent] + conds), val, Val.absent), patterns=[out[x]]))
+        changed = [kk for kk in set(self.st.heap) | set(heap0) if self.st.heap.get(kk) is not heap0.get(kk)]
+        if changed or any(_mentions_term(a, x) for a in self.st.pc[npc:]):
+            # the value expression allocated / called something with a fresh result: keep only what is key-independent -- the
+            # domain, and for a newly constructed object its class; discard the single evaluation's heap effects
+            self.st.heap = dict(heap0)
+            a0 = self.comp("$alloc")
+            a2 = so.fresh("alloc", I)
+            self.assume(a2 >= a0)
+            self.st.heap["$alloc"] = a2
+            self.assume(z3.ForAll([x], (out[x] != Val.absent) == z3.And([present] + conds), patterns=[out[x]]))
+            if isinstance(vv, SV) and self.is_fresh(vv):
+                ci = self.class_of_tag(vv.ty)
+                if ci is not None:
+                    self.assume(z3.ForAll([x], z3.Implies(out[x] != Val.absent, z3.And(
+                        Val.is_ref(out[x]), Val.r(out[x]) >= a0, Val.r(out[x]) < a2, so.typeof(Val.r(out[x])) == self.class_id(ci))), patterns=[out[x]]))
+                    res = self.new_dict(out, "any=>%s" % ci.name) if not self.spec_mode else PMap(out, ci.name)
+                    return res
+        else:
+            self.assume(z3.ForAll([x], out[x] == z3.If(z3.And([present] + conds), val, Val.absent), patterns=[out[x]]))
         if self.spec_mode:
             return PMap(out)
         return self.new_dict(out)
@@ -2025,6 +2097,15 @@ class Calls(Interp):
     def sp_as_ref(self, args, kwargs, node):
         """as_ref(n): the pseudo-object whose reference number is the integer n (used to key ghost tables by small integers)"""
         return SV(Val.ref(self.as_int(args[0], node)), None)
+
+    def sp_pos_in(self, args, kwargs, node):
+        """pos_in(order, x): the position of member x in that iteration order of a set (see assume_set_order)"""
+        return SV(Val.intv(so.set_pos(self.as_seq(args[0], node), self.to_term(args[1], node))), "int")
+
+    def sp_obj_truthy(self, args, kwargs, node):
+        """truthiness of an object that is not a builtin container (what bool(obj) gives through __bool__/__len__/default)"""
+        from .symex import so_truthy_obj
+        return BoolSV(so_truthy_obj(self.refof(args[0], node)))
 
     def sp_has_local(self, args, kwargs, node):
         """the verified function's local variable is bound at this point (static)"""
